@@ -13,6 +13,7 @@
 #include <ascon/kdf.h>
 #include <ascon/hkdf.h>
 #include <ascon/pbkdf2.h>
+#include <sys/mman.h>
 
 using namespace asim;
 
@@ -378,6 +379,12 @@ struct StreamWorld : World {
 
     void gen(Rng &r, Plan &pl, bool thorough) override
     {
+        if (getenv("ASIM_HUGE")) {
+            // one absorb call of 2^32 + k bytes behind a partly filled block (the lengths are size_t: a partition is a
+            // partition, whatever its size); plans of this batch hold nothing else, each costs seconds
+            pl.add("huge", {(int64_t)r.below(9), (int64_t)(1 + r.below(7)), (int64_t)r.below(8), (int64_t)(r.next() >> 1)});
+            return;
+        }
         int ntasks = 1 + (int)r.below(NSLOTS);
         int nops = thorough ? 24 + (int)r.below(41) : 12 + (int)r.below(37);
         bool twin = getenv("ASIM_TWIN") != nullptr;
@@ -724,6 +731,40 @@ struct StreamWorld : World {
         if (c.residue) c.residue->push_back(Residue{c.run->cur_op, -1, NKINDS, Bytes(mem, mem + sizeof(ascon_state_t))});
     }
 
+    // 4 GiB + k bytes in ONE absorb/update call after `pending` bytes in another, against the single-call function over
+    // the same 4 GiB + pending + k bytes.  The input is a read-only mapping of zero pages (no memory is committed).
+    static void do_huge(Ctx &c, const Op &op)
+    {
+        static const char *kn[9] = {"hash", "hasha", "xof", "xofa", "prf", "hmac", "hmaca", "kmac", "kmaca"};
+        int kind = (int)(op.u(0) % 9);
+        size_t pending = 1 + (size_t)(op.u(1) % 7), extra = (size_t)(op.u(2) % 8);
+        size_t big = ((size_t)1 << 32) + extra, total = pending + big;
+        uint8_t *z = (uint8_t *)mmap(0, total + 4096, PROT_READ, MAP_PRIVATE | MAP_ANONYMOUS | MAP_NORESERVE, -1, 0);
+        if (z == MAP_FAILED) { if (c.record) c.run->probe("huge.mmap_failed"); return; }
+        uint8_t key[20], a[32], b[32];
+        fill_bytes(key, 20, op.u(3) ^ c.salt);
+        switch (kind) {
+        case 0: { ascon_hash_state_t h; ascon_hash_init(&h); ascon_hash_update(&h, z, pending); ascon_hash_update(&h, z + pending, big); ascon_hash_finalize(&h, a); ascon_hash(b, z, total); break; }
+        case 1: { ascon_hasha_state_t h; ascon_hasha_init(&h); ascon_hasha_update(&h, z, pending); ascon_hasha_update(&h, z + pending, big); ascon_hasha_finalize(&h, a); ascon_hasha(b, z, total); break; }
+        case 2: { ascon_xof_state_t x; ascon_xof_init(&x); ascon_xof_absorb(&x, z, pending); ascon_xof_absorb(&x, z + pending, big); ascon_xof_squeeze(&x, a, 32); ascon_xof_free(&x); ascon_xof(b, z, total); break; }
+        case 3: { ascon_xofa_state_t x; ascon_xofa_init(&x); ascon_xofa_absorb(&x, z, pending); ascon_xofa_absorb(&x, z + pending, big); ascon_xofa_squeeze(&x, a, 32); ascon_xofa_free(&x); ascon_xofa(b, z, total); break; }
+        case 4: { ascon_prf_state_t p; ascon_prf_init(&p, key); ascon_prf_absorb(&p, z, pending); ascon_prf_absorb(&p, z + pending, big); ascon_prf_squeeze(&p, a, 32); ascon_prf_free(&p); ascon_prf(b, 32, z, total, key); break; }
+        case 5: { ascon_hmac_state_t h; ascon_hmac_init(&h, key, 20); ascon_hmac_update(&h, z, pending); ascon_hmac_update(&h, z + pending, big); ascon_hmac_finalize(&h, key, 20, a); ascon_hmac(b, key, 20, z, total); break; }
+        case 6: { ascon_hmaca_state_t h; ascon_hmaca_init(&h, key, 20); ascon_hmaca_update(&h, z, pending); ascon_hmaca_update(&h, z + pending, big); ascon_hmaca_finalize(&h, key, 20, a); ascon_hmaca(b, key, 20, z, total); break; }
+        case 7: { ascon_kmac_state_t k; ascon_kmac_init(&k, key, 16, (const unsigned char *)"huge", 4, 32); ascon_kmac_absorb(&k, z, pending); ascon_kmac_absorb(&k, z + pending, big); ascon_kmac_squeeze(&k, a, 32); ascon_kmac_free(&k); ascon_kmac(key, 16, z, total, (const unsigned char *)"huge", 4, b, 32); break; }
+        default: { ascon_kmaca_state_t k; ascon_kmaca_init(&k, key, 16, (const unsigned char *)"huge", 4, 32); ascon_kmaca_absorb(&k, z, pending); ascon_kmaca_absorb(&k, z + pending, big); ascon_kmaca_squeeze(&k, a, 32); ascon_kmaca_free(&k); ascon_kmaca(key, 16, z, total, (const unsigned char *)"huge", 4, b, 32); break; }
+        }
+        munmap(z, total + 4096);
+        if (c.record) {
+            c.run->fold(a, 32);
+            c.run->fault("len.absorb_call_of_4GiB_plus");
+            c.run->state(fmt("huge/%s/%zu/%zu", kn[kind], pending, extra));
+            if (memcmp(a, b, 32) != 0)
+                c.run->violation("C07", "chunk_invariance", std::string(kn[kind]) + ".huge_call",
+                                 fmt("%zu bytes then one call of 2^32+%zu bytes differs from the single-call function over the same %zu bytes", pending, extra, total));
+        }
+    }
+
     // Single-call functions that have no incremental counterpart in this world (ASCON-PrfShort, ASCON-Mac and its
     // verification, the two PBKDF2 variants): exact-size buffers, guard pages in page mode, empty inputs as null or
     // non-null pointers.  Their outputs enter the history digest (C09); memory safety is C12's.  What they compute is a
@@ -886,6 +927,7 @@ struct StreamWorld : World {
             else if (op.name == "perm") do_perm(c, op);
             else if (op.name == "sapi") do_sapi(c, op);
             else if (op.name == "oneshot") do_oneshot(c, op);
+            else if (op.name == "huge") do_huge(c, op);
             else if (op.name == "next") do_next(c, op);
         }
         for (int s = 0; s < NSLOTS; ++s) do_free(c, s, false);
